@@ -113,7 +113,49 @@ theorem nested_accepts_iff (ss : List Sig) (args : List Arg) (exp : Option Ty) :
     | some o => simp [hs]
     | none => simp [hs, ih (k + 1)]
 
+/-- **C15 (ill-formed variants are never skipped)**: the call fails with the signature
+    diagnostic of variant `i` iff `i` is ill-formed and every variant listed before it is
+    well-formed and does not accept — i.e. exactly when the first-match search reaches it, as
+    a direct call of that variant would fail. -/
+theorem invalid_iff (vs : List Variant) (args : List Arg) (exp : Option Ty) (i : Nat) :
+    resolveR vs args exp = .invalid i ↔
+      (∃ v, vs[i]? = some v ∧ v.isInvalid = true) ∧
+        ∀ j, j < i → ∀ w, vs[j]? = some w → w.isInvalid = false ∧ accepts w args exp = false := by
+  unfold resolveR accepts
+  rw [goR_invalid_iff]
+  constructor
+  · rintro ⟨j, hi, hv, hprev⟩
+    have : i = j := by omega
+    subst this
+    refine ⟨hv, fun j' hj' w hw => ?_⟩
+    have := hprev j' hj' w hw
+    exact ⟨this.1, by rw [this.2]; rfl⟩
+  · rintro ⟨hv, hprev⟩
+    refine ⟨i, by omega, hv, fun j' hj' w hw => ?_⟩
+    have := hprev j' hj' w hw
+    refine ⟨this.1, ?_⟩
+    cases h : (attempt w args exp).1 with
+    | none => rfl
+    | some x => rw [h] at this; cases this.2
+
+/-- **C15 (well-formed sets)**: without ill-formed variants the full loop is the loop of
+    `first_match` / `reject_iff_none`. -/
+theorem resolveR_of_valid (vs : List Variant) (args : List Arg) (exp : Option Ty)
+    (h : ∀ v, v ∈ vs → v.isInvalid = false) :
+    resolveR vs args exp =
+      match resolve vs args exp with
+      | some (i, o) => .chosen i o
+      | none => .noMatch :=
+  goR_valid args exp vs 0 h
+
 /-! ### Non-vacuity -/
+
+/-- an ill-formed variant listed first is not skipped; listed after the accepting one it is never looked up -/
+example : (match resolveR [.invalid, .plain { params := [.int], ret := .int }] [.typed .int] none with
+    | .invalid 0 => true | _ => false) = true ∧
+  (match resolveR [.plain { params := [.int], ret := .int }, .invalid] [.typed .int] none with
+    | .chosen 0 _ => true | _ => false) = true := by decide
+
 
 /-- checking position, first variant wants a compile-time `nat` and gets a runtime value
     (`ComptimeUnknownError`, not a type error): the second variant is chosen -/
